@@ -89,8 +89,8 @@ reg("C18", [
     K("C18", "match_qclass", "all (class, qclass) pairs (symbolic codes)", ["ResourceRecord::match_qclass"]),
     K("C18", "typecode_null_constructed", "all unsupported codes + 10 (symbolic) for RData::NULL / RData::Empty",
       ["RData::type_code"]),
-    K("C18", "typecode_parsed", "RData::parse: empty RDATA for all codes (symbolic, != OPT); NULL(10), unknown 99/65280 with content",
-      ["RData::parse", "parse_rdata", "NULL::parse", "RData::type_code"], weight=20),
+    K("C18", "typecode_parsed", "RData::parse with empty RDATA for all 65535 codes != OPT (symbolic): type_code() == the type the code denotes",
+      ["RData::parse", "RData::type_code"], weight=20, timeout_quick=700, timeout_thorough=1500),
 ] + [
     Obl("C18.%s" % h, "K", "gen_c18::%s" % h, "minimal value of 8 RData variants each: type_code() and IANA code",
         ["RData::type_code", "u16::from(TYPE)"]) for h in _gk.c18_variant_harnesses()
@@ -332,7 +332,7 @@ reg("C16", [
 ], [
     "the Hasher is a recording model: 'hash equally' is decided as equality of the byte streams fed to Hasher::write*",
     "Packet and Question have no PartialEq/Hash; their owned copies are covered through C02.packet (parse borrows, build owns)",
-    "InstanceInformation (simple-mdns) equality/hash is not covered by this obligation",
+    "InstanceInformation (simple-mdns) equality/hash is decided by the separate obligation C16.instance_hash",
 ])
 
 reg("C12", [
@@ -420,3 +420,11 @@ reg("C18", [
     M("C18", "question_codes", "question_rt", "the same 47 x 6 question type/class values: the code on the wire is the IANA number, and it parses back to the same value",
       ["<Question as WireFormat>::{write_to,parse}", "u16::from(QTYPE)", "QTYPE::try_from", "QCLASS::try_from"]),
 ], [])
+
+reg("C16", [
+    M("C16", "instance_hash", "instance_hash",
+      "InstanceInformation pairs with the same 0-2 IPv4 addresses and 0-2 ports inserted in opposite orders, every HashSet iteration order "
+      "explored, all address/port/name bytes symbolic: real eq true and identical hasher streams",
+      ["<InstanceInformation as Hash>::hash", "<InstanceInformation as PartialEq>::eq", "HashSet iteration (model: every permutation)",
+       "slice::sort (model)", "IpAddr Ord/Hash (model)"]),
+], ["HashSet iteration order is modelled as an arbitrary permutation per iteration (std documents it as unspecified)"])
